@@ -28,6 +28,7 @@ import (
 	"github.com/regclient/regclient/types"
 	"github.com/regclient/regclient/types/descriptor"
 	"github.com/regclient/regclient/types/manifest"
+	"github.com/regclient/regclient/types/ref"
 
 	"verif/ev"
 	"verif/gen"
@@ -64,10 +65,15 @@ type topo struct {
 	ChunkFault bool
 	// secrets of a configuration entry without a name (the client ignores the entry; it must not print them)
 	orphan []string
-	Hosts  []*hostSpec
-	w      *modelreg.World
-	g      *gen.Graph
-	errOut io.Writer
+	// CredSrc: host-config (credentials in the configuration handed to the library), docker-file (auths entries of a
+	// Docker configuration file) or cred-helper (a credential helper named by that file)
+	CredSrc string
+	decoys  []string
+	tmpDirs []string
+	Hosts   []*hostSpec
+	w       *modelreg.World
+	g       *gen.Graph
+	errOut  io.Writer
 }
 
 func secret(rng *rand.Rand, tag string) string {
@@ -301,14 +307,24 @@ func (t *topo) client(logBuf io.Writer) *regclient.RegClient {
 	var hosts []*modelreg.Host
 	by := map[string]*hostSpec{}
 	for _, hs := range t.Hosts {
-		hosts = append(hosts, hs.h)
 		by[hs.Name] = hs
+		if hs.Role == "hub" {
+			continue
+		}
+		hosts = append(hosts, hs.h)
 	}
 	lg := slog.New(slog.NewTextHandler(logBuf, &slog.HandlerOptions{Level: types.LevelTrace}))
 	// an entry without a name, as a hand-edited configuration file may contain: ignored, and its secrets stay unprinted
 	t.orphan = []string{fmt.Sprintf("S3CorphanPW%dx", t.I), fmt.Sprintf("S3CorphanTK%dx", t.I)}
 	nameless := config.Host{Hostname: "nameless.example:5000", User: "orphan", Pass: t.orphan[0], Token: t.orphan[1]}
-	return rcx.New(hosts, rcx.Opts{RetryLimit: 3, Extra: []regclient.Opt{regclient.WithSlog(lg), regclient.WithConfigHost(nameless)}, Mutate: func(name string, c *config.Host) {
+	extra := []regclient.Opt{regclient.WithSlog(lg), regclient.WithConfigHost(nameless)}
+	if t.CredSrc != "" && t.CredSrc != "host-config" {
+		extra = append(extra, t.dockerCreds())
+		if hub := t.find("hub"); hub != nil {
+			extra = append(extra, regclient.WithConfigHost(config.Host{Name: "docker.io", Hostname: hub.h.Addr(), TLS: config.TLSDisabled}))
+		}
+	}
+	return rcx.New(hosts, rcx.Opts{RetryLimit: 3, Extra: extra, Mutate: func(name string, c *config.Host) {
 		hs := by[name]
 		if t.ChunkFault && hs.Role == "upstream" {
 			c.BlobChunk, c.BlobMax = 64, 64
@@ -320,7 +336,7 @@ func (t *topo) client(logBuf io.Writer) *regclient.RegClient {
 		case "insecure", "stripped":
 			c.TLS = config.TLSInsecure
 		}
-		if hs.Auth != "none" && (hs.Role == "upstream" || hs.Role == "mirror" || hs.Role == "second") {
+		if hasOwnCreds(hs) && (t.CredSrc == "" || t.CredSrc == "host-config") {
 			c.User, c.Pass = hs.user, hs.pass
 			if hs.idToken != "" {
 				c.User, c.Pass, c.Token = "", "", hs.idToken
@@ -423,6 +439,26 @@ func (t *topo) workload(ctx context.Context, rc *regclient.RegClient, rng *rand.
 			run.SetAdd("failing_operation_classes", s.name+"/"+t.find("upstream").Auth)
 		} else {
 			ok++
+		}
+	}
+	if hub := t.find("hub"); hub != nil {
+		r, rerr := ref.New("docker.io/library/alpine:latest")
+		for _, how := range []string{"head", "get"} {
+			var err error
+			if rerr != nil {
+				err = rerr
+			} else if how == "head" {
+				_, err = rc.ManifestHead(ctx, r)
+			} else {
+				_, err = rc.ManifestGet(ctx, r)
+			}
+			if err != nil {
+				failed++
+				fmt.Fprintf(t.errOut, "operation hub-%s failed: %v\n", how, err)
+			} else {
+				ok++
+				run.Count("operations_ok_at_the_docker_hub_stand_in", 1)
+			}
 		}
 	}
 	return
@@ -650,6 +686,21 @@ func (s *syncBuf) String() string              { s.mu.Lock(); defer s.mu.Unlock(
 func one(i int) {
 	rng := ev.Rand(fmt.Sprintf("c11/%d", i))
 	t := genTopo(rng, i)
+	// every third topology learns its credentials from a Docker configuration file, every sixth of those through a
+	// credential helper (decided by the index, not drawn: the topologies themselves stay what they were)
+	switch {
+	case i%6 == 4:
+		t.CredSrc = "cred-helper"
+	case i%3 == 1:
+		t.CredSrc = "docker-file"
+	default:
+		t.CredSrc = "host-config"
+	}
+	if t.CredSrc != "host-config" {
+		// a stand-in for Docker Hub (the client reaches "docker.io" at this host): the file lists its login under
+		// Docker's own key, next to decoys whose names merely resemble Docker Hub's
+		t.Hosts = append(t.Hosts, &hostSpec{Name: "hub", Role: "hub", Auth: "basic", TLS: "plain", TokenOn: "self"})
+	}
 	t.build(rng)
 	defer t.w.Close()
 	var logs syncBuf
@@ -664,6 +715,10 @@ func one(i int) {
 	run.Count("operations_failed", failed)
 	run.Count("log_bytes_scanned", len(logs.String()))
 	t.audit(logs.String())
+	t.auditDecoys(logs.String())
+	for _, d := range t.tmpDirs {
+		_ = os.RemoveAll(d)
+	}
 	if ok > 0 {
 		run.Distinct(t.key())
 	}
@@ -718,7 +773,7 @@ func regctlTrace() {
 
 func main() {
 	run = ev.Start("C11", "exploration")
-	run.Rule("seeded topologies of 2-5 hosts (upstream, optional mirror, second registry, optional blob-redirect target, optional external-layer host; token endpoint on the registry or separate) x auth scheme per host {none, basic, bearer, bearer with refresh token, identity token} x transport {plain, TLS with pinned cert, TLS insecure} x per-repository auth x extra / malformed challenges; " +
+	run.Rule("seeded topologies of 2-5 hosts (upstream, optional mirror, second registry, optional blob-redirect target, optional external-layer host; token endpoint on the registry or separate) x auth scheme per host {none, basic, bearer, bearer with refresh token, identity token} x transport {plain, TLS with pinned cert, TLS insecure} x per-repository auth x extra / malformed challenges x credential source {host configuration, Docker configuration file with keys in several spellings and decoy entries of nobody, credential helper named by that file}; " +
 		"redirect targets and external hosts answer 401 with Basic or with Bearer challenges naming their own realm; 17 client operations in random order incl. cross-registry copies with referrers and external layers; " +
 		"non-trivial = at least one operation succeeded through authentication; distinct = topology classes")
 	run.Assume("every secret is a unique random string; a host may see the secrets of Y only if it is Y or the token endpoint Y itself named in its challenge",
